@@ -235,12 +235,27 @@ Section MachineLevel.
   Variable c : cfg.
   Variable tables : list (string * frame).
 
+  (** the query session.sql freezes: the spliced query, with the user's CTEs renamed when the source does so *)
+  Definition sql_result_query (st : state) (q1 : query) : query :=
+    let sp0 := splice (c_skip_own_ctes c) (c_user_refs_only c) q1 (s_views st) in
+    if c_hash_user_ctes c then alpha_ctes (user_cte_names (s_next st) q1) sp0 else sp0.
+
   Definition sql_side_ok (st : state) (q1 : query) : bool :=
     let so := c_skip_own_ctes c in
     let uo := c_user_refs_only c in
     no_capture so uo q1 (s_views st)
-    && fresh_for_query (fresh (s_next st)) (splice so uo q1 (s_views st))
-    && nodupb (static_cols (q_main (splice so uo q1 (s_views st)))).
+    && (negb (c_hash_user_ctes c)
+        || alpha_ok (user_cte_names (s_next st) q1) (splice so uo q1 (s_views st)))
+    && fresh_for_query (fresh (s_next st)) (sql_result_query st q1)
+    && nodupb (static_cols (q_main (sql_result_query st q1))).
+
+  Lemma Run_alpha names q0 r : alpha_ok names q0 = true ->
+    (Run (alpha_ctes names q0) (base tables) r <-> Run q0 (base tables) r).
+  Proof.
+    intro OK. unfold Run. split; intros [f E]; exists f.
+    - rewrite <- (alpha_sound names q0 (base tables) f OK). exact E.
+    - rewrite (alpha_sound names q0 (base tables) f OK). exact E.
+  Qed.
 
   (** session.sql(q): if qualify accepts the query as q1 and a DataFrame comes back, collecting it
       yields r exactly when the engine yields r for q1 with every view name bound to its stored frame *)
@@ -252,10 +267,18 @@ Section MachineLevel.
               <-> exists g, Run q1 (view_env g (s_views st) (base tables)) r.
   Proof.
     intros st q q1 d Hq Hd Hok r. unfold sql_side_ok in Hok.
-    apply andb_true_iff in Hok. destruct Hok as [Hok Hnd]. apply andb_true_iff in Hok. destruct Hok as [NC Hf].
+    apply andb_true_iff in Hok. destruct Hok as [Hok Hnd]. apply andb_true_iff in Hok. destruct Hok as [Hok Hf].
+    apply andb_true_iff in Hok. destruct Hok as [NC Ha].
     cbn [mstep] in Hd. rewrite Hq in Hd. destruct (forallb _ _); cbn [snd] in Hd; [|discriminate].
-    inversion Hd; subst d.
-    apply (sql_sound (c_skip_own_ctes c) (c_user_refs_only c) q1 (s_views st) (base tables) (fresh (s_next st)) r); assumption.
+    inversion Hd; subst d. clear Hd.
+    fold (sql_result_query st q1).
+    change (mkDf (q_ctes (sql_result_query st q1) ++ [(fresh (s_next st), q_main (sql_result_query st q1))])
+                 (QSel (FName (fresh (s_next st))) [] (sel_of_static (static_cols (q_main (sql_result_query st q1)))) false))
+      with (sql_df (fresh (s_next st)) (sql_result_query st q1)).
+    rewrite (sql_df_sound (fresh (s_next st)) (sql_result_query st q1) (base tables) r Hf Hnd).
+    unfold sql_result_query. destruct (c_hash_user_ctes c); cbn [negb orb] in Ha.
+    - rewrite (Run_alpha _ _ r Ha). apply splice_sound. exact NC.
+    - apply splice_sound. exact NC.
   Qed.
 
   (** createOrReplaceTempView(name) of d followed by session.table(name') for any spelling of the name:
